@@ -32,6 +32,8 @@ import (
 	"crypto/sha256"
 	"io"
 
+	"github.com/btcsuite/btcd/btcec/v2"
+	"github.com/lightningnetwork/lnd/keychain"
 	"golang.org/x/crypto/chacha20poly1305"
 	"golang.org/x/crypto/hkdf"
 )
@@ -289,7 +291,7 @@ func c11sOrders(k int) [][]bool {
 // rotation of one direction changes neither key nor salt of the other, and
 // each direction's salt evolves as HKDF of the ORIGINAL chaining key says.
 func VerifC11SplitIndep()     { c11sIndep(2, 2) }
-func VerifC11SplitIndepDeep() { c11sIndep(3, 4) }
+func VerifC11SplitIndepDeep() { c11sIndep(4, 4) }
 
 func c11sIndep(rot, np int) {
 	c11sConfig()
@@ -352,7 +354,7 @@ func c11sIndep(rot, np int) {
 // interleaving, and afterwards both directions still work, including one
 // further rotation.
 func VerifC11SplitLockstep()     { c11sLockstep(2, 2) }
-func VerifC11SplitLockstepDeep() { c11sLockstep(3, 2) }
+func VerifC11SplitLockstepDeep() { c11sLockstep(4, 2) }
 
 type c11sSide struct {
 	m     *Machine
@@ -428,4 +430,220 @@ func c11sLockstep(rot, np int) {
 		recv(a, b, "after all rotations: responder->initiator message read identical (keys and salts of both ends agree)")
 	}
 	vReach("lockstep-done")
+}
+
+// ---------------------------------------------------------------- (4c) the three acts
+
+// c11sKey: a secp256k1 key pair from 32 symbolic bytes. Symbolically (engine
+// model models_c11b.go) scalars and points are opaque and a*(b*G) = b*(a*G)
+// holds by construction; natively the real curve code runs.
+type c11sKey struct {
+	raw  []byte
+	priv *btcec.PrivateKey
+	pub  *btcec.PublicKey
+	ser  []byte
+}
+
+func c11sNonZero(b []byte) bool {
+	var acc byte
+	for _, x := range b {
+		acc |= x
+	}
+	return acc != 0
+}
+
+func c11sNewKey(name string) c11sKey {
+	b := vBytes(name, 32)
+	// a private key is a value in [1, N-1]; N = 0xFFFFFFFF FFFFFFFF FFFFFFFF FFFFFFFE BAAE...,
+	// so "first byte < 0xff" is a simple sufficient condition for < N
+	vAssume(c11sNonZero(b) && b[0] != 0xff)
+	priv, pub := btcec.PrivKeyFromBytes(b)
+	return c11sKey{raw: b, priv: priv, pub: pub, ser: pub.SerializeCompressed()}
+}
+
+// c11sDH: BOLT-8 ECDH(k, rk) = SHA256(compressed(k * rk)), written against btcec.
+func c11sDH(priv *btcec.PrivateKey, pub *btcec.PublicKey) []byte {
+	var pj, r btcec.JacobianPoint
+	pub.AsJacobian(&pj)
+	btcec.ScalarMultNonConst(&priv.Key, &pj, &r)
+	r.ToAffine()
+	h := sha256.Sum256(btcec.NewPublicKey(&r.X, &r.Y).SerializeCompressed())
+	return h[:]
+}
+
+func c11sMixHash(h [32]byte, data []byte) [32]byte {
+	return sha256.Sum256(append(append([]byte{}, h[:]...), data...))
+}
+
+// c11sTranscript: the three acts and the final chaining key as BOLT-8 section
+// "Handshake Exchange" prescribes them for initiator (is, ie) targeting the
+// serialised responder key target, responder (rs, re). Every ECDH is computed
+// from the OTHER party's private key than the code that produces the act uses.
+type c11sTranscript struct {
+	act1, act2 [50]byte
+	act3       [66]byte
+	ck         [32]byte
+}
+
+func c11sHandshakeRef(is, ie, rs, re c11sKey) (t c11sTranscript) {
+	h := sha256.Sum256([]byte("Noise_XK_secp256k1_ChaChaPoly_SHA256"))
+	ck := h
+	h = c11sMixHash(h, []byte("lightning"))
+	h = c11sMixHash(h, rs.ser)
+	// act one: -> e, es
+	h = c11sMixHash(h, ie.ser)
+	ck, k := c11sHKDF(ck, c11sDH(rs.priv, ie.pub))
+	c := c11sSeal(k, 0, h[:], nil)
+	h = c11sMixHash(h, c)
+	copy(t.act1[1:34], ie.ser)
+	copy(t.act1[34:], c)
+	// act two: <- e, ee
+	h = c11sMixHash(h, re.ser)
+	ck, k = c11sHKDF(ck, c11sDH(ie.priv, re.pub))
+	c = c11sSeal(k, 0, h[:], nil)
+	h = c11sMixHash(h, c)
+	copy(t.act2[1:34], re.ser)
+	copy(t.act2[34:], c)
+	// act three: -> s, se
+	c = c11sSeal(k, 1, h[:], is.ser)
+	h = c11sMixHash(h, c)
+	ck, k = c11sHKDF(ck, c11sDH(re.priv, is.pub))
+	tag := c11sSeal(k, 0, h[:], nil)
+	copy(t.act3[1:50], c)
+	copy(t.act3[50:], tag)
+	t.ck = ck
+	return t
+}
+
+const (
+	c11sHonest = iota
+	c11sWrongStatic
+	c11sAct1Version
+	c11sAct1Tag
+	c11sAct2Version
+	c11sAct2Tag
+	c11sAct3Version
+	c11sAct3Key
+	c11sAct3KeyTag
+	c11sAct3Tag
+	c11sScenarios
+)
+
+func c11sMask(dst []byte, n int) {
+	mask := vBytes("mask", n)
+	vAssume(c11sNonZero(mask))
+	for i := range mask {
+		dst[i] ^= mask[i]
+	}
+}
+
+// VerifC11Handshake: two real Machines (NewBrontideMachine) with symbolic
+// static and ephemeral keys run GenActOne .. RecvActThree against each other.
+func VerifC11Handshake() {
+	c11sConfig()
+	vInjective("aeadmac")
+	vInjective("sha256")
+	vInjective("pubser")
+	vAssumption("Poly1305 tag, SHA-256 and point serialisation idealised as collision-free (needed for the failing scenarios only)")
+	vAssumption("private keys: any 32 bytes, not all zero, first byte != 0xff (a sufficient condition for a value in [1, N-1])")
+	scen := vChoice("scenario", c11sScenarios)
+	is, ie := c11sNewKey("initStatic"), c11sNewKey("initEphemeral")
+	rs, re := c11sNewKey("respStatic"), c11sNewKey("respEphemeral")
+	target := rs
+	if scen == c11sWrongStatic {
+		// the initiator targets some other valid key x*G, x != responder's static key
+		target = c11sNewKey("targetStatic")
+		vAssume(!bytes.Equal(target.raw, rs.raw))
+	}
+	ini := NewBrontideMachine(true, &keychain.PrivKeyECDH{PrivKey: is.priv}, target.pub,
+		EphemeralGenerator(func() (*btcec.PrivateKey, error) { return ie.priv, nil }))
+	res := NewBrontideMachine(false, &keychain.PrivKeyECDH{PrivKey: rs.priv}, nil,
+		EphemeralGenerator(func() (*btcec.PrivateKey, error) { return re.priv, nil }))
+	ref := c11sHandshakeRef(is, ie, rs, re)
+
+	a1, err := ini.GenActOne()
+	vAssert(err == nil, "GenActOne succeeds")
+	switch scen {
+	case c11sWrongStatic:
+		err = res.RecvActOne(a1)
+		vAssert(err != nil, "initiator targeting another static key: the responder rejects act one")
+		vReach("hs-wrong-static-rejected")
+		return
+	case c11sAct1Version:
+		v := vU8("version")
+		vAssume(v != 0)
+		a1[0] = v
+	case c11sAct1Tag:
+		c11sMask(a1[34:], 16)
+	default:
+		vAssert(a1 == ref.act1, "act one = 0 || e.pub || AEAD(HKDF(ck, ECDH(e, rs)).2, 0, h, '') (BOLT-8)")
+	}
+	err = res.RecvActOne(a1)
+	if scen == c11sAct1Version || scen == c11sAct1Tag {
+		vAssert(err != nil, "manipulated act one is rejected")
+		vReach("hs-act1-rejected")
+		return
+	}
+	vAssert(err == nil, "responder accepts act one of an initiator that targets its static key")
+
+	a2, err := res.GenActTwo()
+	vAssert(err == nil, "GenActTwo succeeds")
+	switch scen {
+	case c11sAct2Version:
+		v := vU8("version")
+		vAssume(v != 0)
+		a2[0] = v
+	case c11sAct2Tag:
+		c11sMask(a2[34:], 16)
+	default:
+		vAssert(a2 == ref.act2, "act two = 0 || e.pub || AEAD(HKDF(ck, ECDH(e, re)).2, 0, h, '') (BOLT-8)")
+	}
+	err = ini.RecvActTwo(a2)
+	if scen == c11sAct2Version || scen == c11sAct2Tag {
+		vAssert(err != nil, "manipulated act two is rejected")
+		vReach("hs-act2-rejected")
+		return
+	}
+	vAssert(err == nil, "initiator accepts act two")
+
+	a3, err := ini.GenActThree()
+	vAssert(err == nil, "GenActThree succeeds")
+	switch scen {
+	case c11sAct3Version:
+		v := vU8("version")
+		vAssume(v != 0)
+		a3[0] = v
+	case c11sAct3Key:
+		c11sMask(a3[1:34], 33)
+	case c11sAct3KeyTag:
+		c11sMask(a3[34:50], 16)
+	case c11sAct3Tag:
+		c11sMask(a3[50:], 16)
+	default:
+		vAssert(a3 == ref.act3, "act three = 0 || AEAD(k2, 1, h, s.pub) || AEAD(HKDF(ck, ECDH(s, re)).2, 0, h, '') (BOLT-8)")
+	}
+	err = res.RecvActThree(a3)
+	if scen != c11sHonest {
+		vAssert(err != nil, "manipulated act three is rejected")
+		vReach("hs-act3-rejected")
+		return
+	}
+	vAssert(err == nil, "responder accepts act three")
+	vAssert(res.remoteStatic != nil && bytes.Equal(res.remoteStatic.SerializeCompressed(), is.ser),
+		"responder learns the initiator's static key")
+
+	// transport keys: what split() derived from the final chaining key
+	i2r, r2i := c11sSplitRef(ref.ck)
+	p := vChoice("p", 2)
+	mi, mr := vBytes("msgI", p), vBytes("msgR", p)
+	pi, pr := &c11sPipe{}, &c11sPipe{}
+	c11sSendTo(ini, pi, mi)
+	c11sSendTo(res, pr, mr)
+	vAssert(bytes.Equal(pi.b, c11sWire(i2r.key, 0, mi)), "initiator's first message is sealed with HKDF(ck_final, '').1")
+	vAssert(bytes.Equal(pr.b, c11sWire(r2i.key, 0, mr)), "responder's first message is sealed with HKDF(ck_final, '').2")
+	got, err := res.ReadMessage(pi)
+	vAssert(err == nil && bytes.Equal(got, mi), "after the handshake the responder reads the initiator's message identical")
+	got, err = ini.ReadMessage(pr)
+	vAssert(err == nil && bytes.Equal(got, mr), "after the handshake the initiator reads the responder's message identical")
+	vReach("hs-complete")
 }
